@@ -12,8 +12,11 @@ Open Scope N_scope.
 
 (* The full statement "forall c s, wf s -> agrees (parse c s) (ref_decode (view s))" is FALSE for the code
    as it is: one witness per recorded defect class (known_findings.txt, property C02).  The three classes
-   of layer_frame.go itself (parse-arp-short, parse-arp-hlen, parse-vlan-short) were repaired by this cluster;
-   the remaining three lie in IP4.IsValid / IP6.IsValid (VIEWS cluster's functions). *)
+   of layer_frame.go itself (parse-arp-short, parse-arp-hlen, parse-vlan-short) were repaired by this cluster.
+   The remaining four lie in the validators Parse calls, IP4.IsValid / IP6.IsValid / TCP.IsValid (VIEWS cluster's
+   functions).  The model carries the original and the repaired variant of each ([c_fx], Model/Parse.v);
+   Model/ParseFixes.v records which one /repo has.  The refutations below are about the ORIGINAL variants
+   (the witnesses use [fx_old]); under the repaired variants the same inputs agree (C02_repaired_validators_agree). *)
 Example C02_repaired_witnesses_agree :
   agreesb (parse cfg0 (of_bytes w_arp_short)) (ref_decode w_arp_short) = true /\
   agreesb (parse cfg0 (of_bytes w_arp_hlen)) (ref_decode w_arp_hlen) = true /\
@@ -22,33 +25,63 @@ Proof. exact fixed_witnesses_agree. Qed.
 Print Assumptions C02_repaired_witnesses_agree.
 
 Theorem C02_parse_eq_ref_refuted_ip4_ihl :
-  exists c s, wf s /\ bytes_ok (arr s) /\ known_C02 (view s) = Some "parse-ip4-ihl"%string /\
+  exists c s, wf s /\ bytes_ok (arr s) /\ known_C02 (c_fx c) (view s) = Some "parse-ip4-ihl"%string /\
               ~ agrees (parse c s) (ref_decode (view s)).
 Proof. exact eq_ref_refuted_ip4_ihl. Qed.
 Print Assumptions C02_parse_eq_ref_refuted_ip4_ihl.
 
 Theorem C02_parse_eq_ref_refuted_ip4_totallen :
-  exists c s, wf s /\ bytes_ok (arr s) /\ known_C02 (view s) = Some "parse-ip4-totallen"%string /\
+  exists c s, wf s /\ bytes_ok (arr s) /\ known_C02 (c_fx c) (view s) = Some "parse-ip4-totallen"%string /\
               ~ agrees (parse c s) (ref_decode (view s)).
 Proof. exact eq_ref_refuted_ip4_totallen. Qed.
 Print Assumptions C02_parse_eq_ref_refuted_ip4_totallen.
 
 Theorem C02_parse_eq_ref_refuted_ip6_trailing :
-  exists c s, wf s /\ bytes_ok (arr s) /\ known_C02 (view s) = Some "parse-ip6-trailing"%string /\
+  exists c s, wf s /\ bytes_ok (arr s) /\ known_C02 (c_fx c) (view s) = Some "parse-ip6-trailing"%string /\
               ~ agrees (parse c s) (ref_decode (view s)).
 Proof. exact eq_ref_refuted_ip6_trailing. Qed.
 Print Assumptions C02_parse_eq_ref_refuted_ip6_trailing.
 
-(* Outside the three classes (a decidable predicate on the bytes within the length), for every well-formed slice
-   of any capacity and spare contents, every session configuration, bytes < 256 and a frame shorter than 65536
-   bytes (uint16 wrap of IPv6 PayloadLen+40): Parse reports an error exactly when the reference decoder does,
+Theorem C02_parse_eq_ref_refuted_tcp_doff :
+  exists c s, wf s /\ bytes_ok (arr s) /\ known_C02 (c_fx c) (view s) = Some "parse-tcp-doff"%string /\
+              ~ agrees (parse c s) (ref_decode (view s)).
+Proof. exact eq_ref_refuted_tcp_doff. Qed.
+Print Assumptions C02_parse_eq_ref_refuted_tcp_doff.
+
+Example C02_repaired_validators_agree :
+  agreesb (parse cfg1 (of_bytes w_ip4_ihl)) (ref_decode w_ip4_ihl) = true /\
+  agreesb (parse cfg1 (of_bytes w_ip4_tl)) (ref_decode w_ip4_tl) = true /\
+  agreesb (parse cfg1 (of_bytes w_ip6_trail)) (ref_decode w_ip6_trail) = true /\
+  agreesb (parse cfg1 (of_bytes w_tcp_doff)) (ref_decode w_tcp_doff) = true /\
+  known_C02 fx_new w_ip4_ihl = None /\ known_C02 fx_new w_ip4_tl = None /\
+  known_C02 fx_new w_ip6_trail = None /\ known_C02 fx_new w_tcp_doff = None.
+Proof. exact repaired_validators_agree. Qed.
+Print Assumptions C02_repaired_validators_agree.
+
+(* Outside the classes of the validator variants in force (a decidable predicate on the bytes within the length;
+   [known_C02 fx b]: with all three validators repaired it is constantly None, C02_no_class_when_repaired), for every
+   well-formed slice of any capacity and spare contents, every session configuration, every combination of validator
+   variants, bytes < 256 and a frame shorter than 65536 bytes (uint16 wrap of IPv6 PayloadLen+40 in the original
+   IP6.IsValid): Parse reports an error exactly when the reference decoder does,
    and otherwise PayloadID, source/destination MAC, IP and port, presence and start offset of the IPv4 / IPv6 /
    UDP / TCP views and the payload start are those of the reference decoder. *)
 Theorem C02_parse_eq_ref_partial : forall c s,
-  wf s -> bytes_ok (view s) -> N.of_nat (len s) < 65536 -> known_C02 (view s) = None ->
+  wf s -> bytes_ok (view s) -> N.of_nat (len s) < 65536 -> known_C02 (c_fx c) (view s) = None ->
   agrees (parse c s) (ref_decode (view s)).
 Proof. exact parse_eq_ref_partial. Qed.
 Print Assumptions C02_parse_eq_ref_partial.
+
+(* with the three validators repaired no class is left: the statement is then the full one *)
+Theorem C02_no_class_when_repaired : forall b, known_C02 (mkFixes true true true) b = None.
+Proof. exact known_none_when_repaired. Qed.
+Print Assumptions C02_no_class_when_repaired.
+
+Theorem C02_parse_eq_ref_repaired : forall c s,
+  c_fx c = mkFixes true true true ->
+  wf s -> bytes_ok (view s) -> N.of_nat (len s) < 65536 ->
+  agrees (parse c s) (ref_decode (view s)).
+Proof. exact parse_eq_ref_repaired. Qed.
+Print Assumptions C02_parse_eq_ref_repaired.
 
 (* the UDP port switch of Parse is the documented rule table read in precedence order *)
 Theorem C02_udp_port_table : forall sp dp, udp_class sp dp = first_rule sp dp udp_rules.
@@ -57,13 +90,13 @@ Print Assumptions C02_udp_port_table.
 
 Example C02_parse_eq_ref_nonvacuous :
   let s := of_bytes_cap ex_arp28 [170;170] in
-  wf s /\ bytes_ok (view s) /\ N.of_nat (len s) < 65536 /\ known_C02 (view s) = None /\
+  wf s /\ bytes_ok (view s) /\ N.of_nat (len s) < 65536 /\ known_C02 fx_old (view s) = None /\ known_C02 fx_new (view s) = None /\
   exists r, ref_decode (view s) = ROk r /\ r_id r = 3 /\ r_pay r = 14%nat.
 Proof. exact parse_eq_ref_nonvacuous. Qed.
 Print Assumptions C02_parse_eq_ref_nonvacuous.
 
 Example C02_parse_eq_ref_nonvacuous_dns :
-  known_C02 ex_dns = None /\
+  known_C02 fx_old ex_dns = None /\ known_C02 fx_new ex_dns = None /\
   exists r, ref_decode ex_dns = ROk r /\ r_id r = 12 /\ r_ip4 r = Some 14%nat /\ r_udp r = Some 34%nat /\ r_pay r = 42%nat /\
             r_sport r = 51200 /\ r_dport r = 53.
 Proof. exact parse_eq_ref_nonvacuous_dns. Qed.
